@@ -14,6 +14,9 @@ THEOREMS = ["SigpyVerif.C16." + t for t in [
     "sense_denote", "sense_batch_invariant", "sense_batch_partition", "sense_batches_nonempty",
     "weights_exponent_is_half", "weights_sliced_with_coils", "batch_forwards_all", "batched_apply",
     "sense_adjoint_batch_sum_partial", "batch_slices_partition",
+    "splitRows_zip_sum", "unbatched_adj", "sense_adjoint_denote", "vstack_adjoint", "coilData_batch",
+    "sense_adjoint_batch_invariant", "sense_denote_index", "sense_adjoint_index", "sense_dot_test_abstract",
+    "matrix_adjoint_identity", "sense_dot_test", "sense_dot_test_complex",
     "recon_setup_sense", "recon_setup_l1wavelet", "recon_setup_tv", "recon_objective",
     "estimated_weights_sqrt", "consistent_data_recovers",
 ]]
@@ -243,6 +246,9 @@ def correspond(ctx):
         for b in batch_sizes(c["n"], ctx.tier == "quick", rng):
             lines.append(model_line("fwd", c, d, b, Fm, d["x"]))
             meta.append(("fwd", c, b))
+            # `adj` runs `(sense o).adj CR.conj` = `Op.adj` of Model/C16.lean: the very definition that
+            # `sense_adjoint_denote`, `sense_adjoint_batch_invariant`, `sense_adjoint_index` and `sense_dot_test`
+            # are stated about; the reply is compared below with the real `A.H(y)` for every batch size
             lines.append(model_line("adj", c, d, b, Fm, d["y"]))
             meta.append(("adj", c, b))
             lines.append("C16 tree" + lines[-2][len("C16 fwd"):])
